@@ -125,6 +125,7 @@ def run_verus_unit(res, unit_name, src_root, allow):
         res.clauses += len(f['clauses'])
     info['types'] = u.types
     info['call_site_audits'] = u.audits
+    info['hint_anchors_lost'] = u.anchors_lost
     info['functions'] = [f['fn'] for f in u.functions]
 
 
@@ -227,7 +228,7 @@ def verdict_main(res, info, u, r, path, retried=False):
                 continue
             seen.add(ob)
             res.violations.append(dict(unit=u.name, fn=fn_label, clause=cl or clause_txt, obligation=ob, reason=d['message'], where=where,
-                                       rendered=d.get('rendered', '')))
+                                       rendered=d.get('rendered', ''), tentative=bool(u.anchors_lost), anchors_lost=list(u.anchors_lost)))
         return
     if not vr.get('success'):
         info['status'] = 'undecided'
@@ -286,6 +287,11 @@ def finish(res, cfg, t0, seed):
     pc = cfg[pid]
     kf = [k for k in known_findings() if k.get('property') == pid]
     real_viol = []
+    for v in list(res.violations):
+        if v.get('tentative') and not v.get('witness'):
+            res.undecided.append('unit %s: proof hint anchor lost (%s) and the proof of "%s" no longer goes through; no failing input found on the real code - undecided, not an alarm'
+                                 % (v['unit'], '; '.join(v.get('anchors_lost', []))[:200], v['obligation'][:120]))
+            res.violations.remove(v)
     for v in res.violations:
         matched = None
         for k in kf:
@@ -384,6 +390,7 @@ def main():
     ap.add_argument('--replay')
     ap.add_argument('--setup', action='store_true')
     ap.add_argument('--clean', action='store_true')
+    ap.add_argument('--witness-selfcheck', action='store_true', help='development aid: run every witness test of the property on the current tree (all must pass on a tree where the property holds)')
     a = ap.parse_args()
     seed = int(os.environ.get('VERIF_SEED', '0') or 0)
     if a.clean:
@@ -393,6 +400,9 @@ def main():
         os.makedirs(BUILD, exist_ok=True)
         subprocess.run(['verus', '--version'], check=True)
         return KU.setup(BUILD, VERIF, REPO)
+    if a.witness_selfcheck:
+        import witness
+        return witness.selfcheck(a.property, load_config(), BUILD, VERIF)
     if a.replay:
         import witness
         return witness.replay(a.property, a.replay, BUILD, VERIF, REPO)
